@@ -61,7 +61,7 @@ def gen_lines(layouts, ops, a, rnd, per_op):
         l = layouts.get(name)
         if l is None:
             # opaque opcode: a few generic operand shapes; only the Go-side predicates apply
-            for args in (["r0"], ["r0", "r1"], ["r0", "0"], ["r0", "i0"], [], ["3"]):
+            for args in (["r0"], ["r0", "r1"], ["r0", "0"], ["r0", "7"], ["r1", "5"], ["r0", "i0"], [], ["3"]):
                 lines.append(" ".join([name] + args))
             continue
         pools = [operand_pool(k, weval(w, a, nops), a, rnd) for k, w in l["fields"]]
@@ -236,7 +236,9 @@ Print Assumptions current_tree_rejects_unfit.
     C.build_harness()
     rnd = random.Random(a.seed)
     probe = C.jsonl(C.sh([C.BMH, "c03"], input=json.dumps({"arch": dict(rsize=8, R=1, N=1, M=1, L=1, O=1, ops=[], mode="ha"), "lines": []}) + "\n").stdout)
-    allops = sorted(set(layouts) | set(n for n, _ in opaque))
+    # opcodes created on demand (dynop_rsets.go: rsets<N>, an N-bit immediate) have no op_*.go file: the Go-side predicates
+    # (width, round trip of the disassembly) apply to them as to the opaque ones
+    allops = sorted(set(layouts) | set(n for n, _ in opaque) | {"rsets4", "rsets5", "rsets8", "rsets12"})
     archs = make_archs(rnd, layouts, allops, a.tier)
     if a.replay:
         rp = json.load(open(a.replay))["replay"]
